@@ -380,7 +380,10 @@ class Term:
             intercepts = [
                 GroupSpecificTerm(Intercept(), p[1]) for p in product([self], other.common_terms)
             ]
-            slopes = [GroupSpecificTerm(p[0], p[1]) for p in product([self], other.common_terms)]
+            # Each group-specific term gets its own copy of the expr, encodings may differ
+            slopes = [
+                GroupSpecificTerm(deepcopy(p[0]), p[1]) for p in product([self], other.common_terms)
+            ]
             return Model(*intercepts, *slopes)
         else:  # pragma: no cover
             return NotImplemented
@@ -1051,7 +1054,8 @@ class Model:
             return Model(*terms)
         elif isinstance(other, type(self)):
             products = product(self.common_terms, other.common_terms)
-            terms = [GroupSpecificTerm(p[0], p[1]) for p in products]
+            # Each group-specific term gets its own copy of the expr, encodings may differ
+            terms = [GroupSpecificTerm(deepcopy(p[0]), p[1]) for p in products]
             return Model(*terms)
         else:  # pragma: no cover
             return NotImplemented
